@@ -13,7 +13,7 @@
     serialising base additionally needs its output to fit the byte format (documented limit of
     instruction.py: ids, lengths and memory indices < 256), stated as [out_fits]. *)
 From Coq Require Import NArith List Bool.
-From Pi2 Require Import ML.Syntax ML.Subst ML.Machine PTerm.Model PTerm.Facts.
+From Pi2 Require Import ML.Syntax ML.Subst ML.Machine PTerm.Model PTerm.Facts PTerm.PyRt Gen.PyProofDSL PTerm.GenPyProofDSLAgree.
 Import ListNotations.
 Open Scope N_scope.
 
@@ -122,3 +122,29 @@ Example C08_hypotheses_satisfiable :
 Proof. vm_compute. repeat split. Qed.
 Example C08_mem_hypothesis_satisfiable : mem_shape_ok (s_mem ex_state).
 Proof. intros p [H|[]]. discriminate. Qed.
+
+(** ** Tie to the source by TRANSLATION.  Gen/PyProofDSL.v is regenerated on every run from the current text of
+    proof.py (ProofThunk.__call__, the rule constructors of ProofExp, the three phases), basic_interpreter.py (every
+    method), interpreter.py (Interpreter.pattern), interpreter_transformer.py (every delegation) and
+    optimizing_interpreters.py (MemoizingInterpreter.pattern, InstantiationOptimizer.instantiate);
+    PTerm/GenPyProofDSLAgree.v proves that a thunk built by the translated DSL and run through ANY stack of the
+    translated transformer classes sends to the innermost interpreter exactly the model's [stack_calls] and
+    returns the model's conclusion.  The property stated of the translated source: *)
+Theorem C08_source_interp_agree : forall b ls axs t tbl s,
+  no_plug_inst t = true -> mem_shape_ok (s_mem s) -> loads_ok t (s_mem s) = true ->
+  gen_run b ls axs t tbl s = if out_fits b ls axs t tbl s then gen_run_basic axs t else None.
+Proof. intros. rewrite gen_run_eq, gen_run_basic_eq. apply interp_agree_eq; assumption. Qed.
+Print Assumptions C08_source_interp_agree.
+
+(** the advertised conclusion [ProofThunk.conc] computed by the translated rule constructors *)
+Theorem C08_source_conclusion_is_advertised : forall axs t c,
+  gen_run_basic axs t = Some c -> option_map th_conc (build axs t) = Some c.
+Proof. intros axs t c H. rewrite gen_static_conc_agree. rewrite gen_run_basic_eq in H. apply run_advertised. exact H. Qed.
+Print Assumptions C08_source_conclusion_is_advertised.
+
+(** the stacking facts of the model are theorems about the translated classes *)
+Theorem C08_source_stack_semantics : forall b ls axs t mem p ph,
+  gen_stack_calls b ls axs t mem = tcalls (cfg_inS ls) (cfg_loads b ls) (cfg_instopt ls) axs t mem /\
+  obj_pattern (stack_obj b ls) p (mkrst mem ph) = lift_p p ph (pcalls (cfg_inS ls) (cfg_loads b ls) p mem).
+Proof. intros. split; [apply gen_stack_calls_agree | apply stack_pattern_agree]. Qed.
+Print Assumptions C08_source_stack_semantics.
